@@ -63,6 +63,7 @@ func parseAll(text string) (recs []parsedRec, errs []string, ret error, pan stri
 			pan = fmt.Sprint(r)
 		}
 	}()
+	var kept []*shared.ParserNode
 	ret = parser.ParseStreamCallback(strings.NewReader(text), parser.NewDefaultConfig(), func(n *shared.ParserNode, err error) (bool, error) {
 		if err != nil {
 			errs = append(errs, err.Error())
@@ -73,8 +74,19 @@ func parseAll(text string) (recs []parsedRec, errs []string, ret error, pan stri
 			pr.Notes = append(pr.Notes, (*n.Metadata)...)
 		}
 		recs = append(recs, pr)
+		kept = append(kept, n)
 		return false, nil
 	})
+	// a consumer may keep the nodes (the book loader does): what they hold when parsing is over must be what was delivered
+	for i, n := range kept {
+		later := parsedRec{Header: n.Header, Els: n.Elements}
+		if n.Metadata != nil {
+			later.Notes = *n.Metadata
+		}
+		if recsString([]parsedRec{later}) != recsString(recs[i:i+1]) {
+			recs[i].Header += fmt.Sprintf(" [CHANGED AFTER DELIVERY: the node kept by the consumer now reads %s]", recsString([]parsedRec{later}))
+		}
+	}
 	return
 }
 
@@ -255,6 +267,26 @@ func checkC04(w *Worker) {
 				}
 			}
 		}
+	})
+	// G: wide records: more entries than a slice's first capacities (8, 16, 32), followed by further records
+	w.Explore("wide-records", ExploreOpts{ShardDepth: 2, Budgets: map[string]int{"layout": 1}}, func(x *Exec) {
+		W := []int{8, 9, 10, 16, 17, 33, 70}[x.Choose(7, "input:entries")]
+		follow := x.Choose(3, "input:following-records")
+		var f absFile
+		first := absRecord{Header: "wide"}
+		for j := 0; j < W; j++ {
+			first.Items = append(first.Items, absItem{Name: fmt.Sprintf("food/%d", j+1), NumText: fmt.Sprintf("%d.5", j+1)})
+			if j == 4 {
+				first.Items = append(first.Items, absItem{IsNote: true, Name: "n", NoteText: "in the middle"})
+			}
+		}
+		f = append(f, first)
+		for r := 0; r < follow; r++ {
+			f = append(f, absRecord{Header: fmt.Sprintf("next%d", r), Items: []absItem{{Name: "drink/1", NumText: "-1"}, {Name: "drink/2", NumText: "-2"}, {Name: "drink/3", NumText: "-3"}}})
+		}
+		text, _ := renderFile(x, f, renderOpts{})
+		x.Case(fmt.Sprint("wide", W, follow, len(text)), true)
+		check(x, f, text, "wide-records")
 	})
 	// F: single lines longer than the 4096-byte buffers but within the documented 64 KiB limit, in every line role
 	w.Explore("long-lines", ExploreOpts{ShardDepth: 2}, func(x *Exec) {
